@@ -163,7 +163,7 @@ func (d c07Desc) term() string {
 	case 'N':
 		return fmt.Sprintf("SN %d %d", d.k, d.ts)
 	case 'O':
-		return fmt.Sprintf("SO %d %d %d %s %d %d %d", d.k, d.m.ty, d.m.chain, vg.Z(d.m.h), d.m.r, d.m.bid, d.m.ts)
+		return fmt.Sprintf("SO %d %d %d %s %s %d %d", d.k, d.m.ty, d.m.chain, vg.Z(d.m.h), vg.Z(d.m.r), d.m.bid, d.m.ts)
 	}
 	return "SG"
 }
@@ -367,12 +367,133 @@ var c07Fracs = [][2]uint64{
 	{1<<63 + 5, 1<<63 + 6}, {2, math.MaxUint64}, {math.MaxUint64 - 1, 3},
 }
 
+// Heights are int64 and rounds int32 in the vote; the canonical vote carries both as sfixed64.
+// Base heights/rounds are drawn from the whole range (small, around 2^31 and 2^32, 2^32+h,
+// 2^62, MaxInt64; rounds up to MaxInt32, rarely negative), and "another height/round" is not
+// only a neighbour but also a value that differs in one high bit or by a power of two, so that
+// an encoding that drops or folds bits of either field makes two distinct votes share sign-bytes.
+func c07BaseHeight(r *vg.Rand) int64 {
+	small := 1 + int64(r.Intn(1000))
+	if !r.Chance(35) {
+		return small
+	}
+	switch r.Intn(14) {
+	case 0:
+		return 1<<31 - 1
+	case 1:
+		return 1 << 31
+	case 2:
+		return 1<<32 - 1
+	case 3:
+		return 1 << 32
+	case 4:
+		return 1<<32 + small
+	case 5:
+		return 1<<31 + small
+	case 6:
+		return 1 << 62
+	case 7:
+		return math.MaxInt64
+	case 8:
+		return math.MaxInt64 - small
+	case 9:
+		return int64(1+r.Intn(1000)) << 32 // low 32 bits zero
+	case 10:
+		return 1 << uint(r.Intn(63))
+	case 11:
+		return 1<<uint(8*(1+r.Intn(7))) - 1 // 0xff, 0xffff, ...
+	case 12:
+		return r.Int63n(math.MaxInt64) + 1
+	default:
+		return 1<<33 + small
+	}
+}
+
+func c07BaseRound(r *vg.Rand) int64 {
+	if !r.Chance(30) {
+		return int64(r.Intn(3))
+	}
+	switch r.Intn(10) {
+	case 0:
+		return math.MaxInt32
+	case 1:
+		return math.MaxInt32 - 1 - int64(r.Intn(3))
+	case 2:
+		return 1 << 16
+	case 3:
+		return 1<<16 - 1
+	case 4:
+		return 1 << 30
+	case 5:
+		return 1 << uint(r.Intn(31))
+	case 6:
+		return int64(r.Intn(math.MaxInt32))
+	case 7:
+		return 255 + int64(r.Intn(3))
+	case 8: // never produced by consensus, but nothing in commit verification excludes it
+		return []int64{-1, math.MinInt32, -65536}[r.Intn(3)]
+	default:
+		return int64(3 + r.Intn(100))
+	}
+}
+
+// a height different from h (int64 arithmetic wraps like the code's)
+func c07OtherHeight(r *vg.Rand, h int64) int64 {
+	o := h
+	switch r.Intn(8) {
+	case 0, 1:
+		o = h + 1 + int64(r.Intn(2))
+	case 2:
+		o = h - 1
+	case 3, 4:
+		d := []int64{1 << 31, 1 << 32, 1 << 33, 1 << 8, 1 << 16, 1 << 24, 1 << 40, 1 << 48, 1 << 56, 1 << 62, 3 << 32}[r.Intn(11)]
+		if r.Bool() {
+			d = -d
+		}
+		o = h + d
+	case 5, 6:
+		o = h ^ (1 << uint(r.Intn(64))) // one bit, incl. the sign
+	default:
+		o = []int64{-h, h << 32, h >> 32, int64(uint64(h)<<32 | uint64(h)>>32), ^h, 0}[r.Intn(6)]
+	}
+	if o == h {
+		o = h ^ (1 << uint(32+r.Intn(31)))
+	}
+	return o
+}
+
+// a round different from rd, within int32
+func c07OtherRound(r *vg.Rand, rd int64) int64 {
+	x := int32(rd)
+	o := x
+	switch r.Intn(8) {
+	case 0, 1:
+		o = x + 1
+	case 2:
+		o = x - 1
+	case 3, 4:
+		d := []int32{1 << 16, 1 << 8, 1 << 24, 1 << 30, math.MinInt32, 1 << 15, 3 << 16}[r.Intn(7)]
+		if r.Bool() {
+			d = -d
+		}
+		o = x + d
+	case 5, 6:
+		o = x ^ int32(uint32(1)<<uint(r.Intn(32)))
+	default:
+		o = []int32{-x, ^x, x << 16, x >> 16, 0}[r.Intn(5)]
+	}
+	if o == x {
+		o = x ^ int32(1<<uint(16+r.Intn(15)))
+	}
+	return int64(o)
+}
+
 const c07Kinds = 31
 
 func c07GenRun(r *vg.Rand, vals []c07Val, pool int, kind int, fracIdx int) *c07Run {
 	n := len(vals)
 	pre := int64(tmproto.PrecommitType)
-	base := c07Base{chain: 1 + int64(r.Intn(2)), h: 1 + int64(r.Intn(1000)), r: int64(r.Intn(3)), bid: 1 + int64(r.Intn(len(c07Bids)-1))}
+	base := c07Base{chain: 1 + int64(r.Intn(2)), h: c07BaseHeight(r), r: c07BaseRound(r), bid: 1 + int64(r.Intn(len(c07Bids)-1))}
 	if kind == 27 {
 		base.bid = 0
 	}
@@ -498,11 +619,11 @@ func c07GenRun(r *vg.Rand, vals []c07Val, pool int, kind int, fracIdx int) *c07R
 			return "valid-for-other-chain"
 		case 4:
 			i := pickSlot(isSigner)
-			slots[i].d = otherMsg(slots[i], func(m *c07Msg) { m.h += int64(1 + r.Intn(2)) })
+			slots[i].d = otherMsg(slots[i], func(m *c07Msg) { m.h = c07OtherHeight(r, m.h) })
 			return "valid-for-other-height"
 		case 5:
 			i := pickSlot(isSigner)
-			slots[i].d = otherMsg(slots[i], func(m *c07Msg) { m.r++ })
+			slots[i].d = otherMsg(slots[i], func(m *c07Msg) { m.r = c07OtherRound(r, m.r) })
 			return "valid-for-other-round"
 		case 6:
 			i := pickSlot(isSigner)
@@ -580,10 +701,7 @@ func c07GenRun(r *vg.Rand, vals []c07Val, pool int, kind int, fracIdx int) *c07R
 		run.chain = 3 - base.chain
 		run.kind = "arg-other-chain"
 	case 20:
-		run.h = base.h + int64(r.Intn(3)) - 1
-		if run.h == base.h {
-			run.h++
-		}
+		run.h = c07OtherHeight(r, base.h)
 		run.kind = "arg-other-height"
 	case 21:
 		run.bid = []int64{0, 1, 2, 3, 4, 5, 6}[r.Intn(7)]
@@ -592,11 +710,11 @@ func c07GenRun(r *vg.Rand, vals []c07Val, pool int, kind int, fracIdx int) *c07R
 		}
 		run.kind = "arg-other-block"
 	case 22:
-		run.ch = base.h + 1
+		run.ch = c07OtherHeight(r, base.h)
 		run.h = run.ch
 		run.kind = "commit-claims-other-height"
 	case 23:
-		run.cr = base.r + 1
+		run.cr = c07OtherRound(r, base.r)
 		run.kind = "commit-claims-other-round"
 	case 24:
 		run.cb = (base.bid + 1 + int64(r.Intn(len(c07Bids)-1))) % int64(len(c07Bids))
